@@ -20,15 +20,41 @@ func TestVerifC12(t *testing.T) {
 	rng := &vrng{s: vseed() ^ 0xC12}
 	ses := vstart(true, WithVersion(Version1_0_1))
 	defer ses.stop()
+	// the peer must never stop reading (net.Pipe is synchronous and some replies, e.g. KeepAlive, make the client
+	// write an acknowledgement): a background reader collects the client's frames
+	inbox := make(chan vframe, 1024)
+	go func() {
+		for {
+			f, err := ses.p.recv(time.Hour)
+			if err != nil {
+				close(inbox)
+				return
+			}
+			inbox <- f
+		}
+	}()
+	nextRequest := func() (vframe, bool) {
+		for {
+			select {
+			case f, ok := <-inbox:
+				if !ok {
+					return vframe{}, false
+				}
+				if f.typ == int(MsgKeepAliveAck) {
+					continue
+				}
+				return f, true
+			case <-time.After(3 * time.Second):
+				return vframe{}, false
+			}
+		}
+	}
 
 	stC := s.params["LLRPStatus"]
 	exchange := func(exp *sContainer, replyTyp int, payload []byte) string {
 		respT := MessageType(exp.TypeID)
-		reqT, ok := respT.Converse()
-		if !ok || respT == MsgKeepAlive {
-			reqT = MsgCustomMessage // any request will do: SendFor only looks at the reply
-		}
-		out := reqT.NewInstance()
+		// any request will do: SendFor only looks at the reply's type (CloseConnection would park the write loop)
+		out := MsgGetReaderCapabilities.NewInstance()
 		in := respT.NewInstance()
 		done := make(chan error, 1)
 		ctx, cancel := context.WithTimeout(context.Background(), 3*time.Second)
@@ -41,8 +67,8 @@ func TestVerifC12(t *testing.T) {
 			}()
 			done <- ses.c.SendFor(ctx, out, in)
 		}()
-		f, err := ses.p.recv(3 * time.Second)
-		if err != nil {
+		f, ok := nextRequest()
+		if !ok {
 			return "harness-recv-failed"
 		}
 		if err := ses.p.send(vframe{ver: 1, typ: replyTyp, id: f.id, payload: payload}); err != nil {
